@@ -61,7 +61,12 @@ Proof.
         unfold pending at 1. cbn [cmd]. apply Forall_app. split; [exact Hp|]. constructor; [|constructor]. now apply Hd.
       * apply (inv_failed s I).
     + unfold delivered, pending at 1. cbn [cmd runs]. fold b. now rewrite app_assoc.
-  - assert (I1 : inv (run_cmd ok (if execdir then eparent e else None) b s)).
+  - assert (Hne : run_batch ok (if execdir then eparent e else None) b s = run_cmd ok (if execdir then eparent e else None) b s).
+    { destruct b as [|x b'] eqn:Eb; [|reflexivity]. exfalso.
+      (* with nothing pending the whole budget is left, and the entry fits it *)
+      cbn [total fold_right] in Hrem. assert (rem = budget) by lia. subst rem. congruence. }
+    rewrite Hne.
+    assert (I1 : inv (run_cmd ok (if execdir then eparent e else None) b s)).
     { constructor; cbn [run_cmd cmd runs current_dir].
       - exact Logic.I.
       - apply Forall_app. split; [apply (inv_runs s I)|]. constructor; [cbn [snd]; lia|constructor].
@@ -89,6 +94,16 @@ Lemma finished_dir_inv d s : inv s -> (execdir = true -> current_dir s = Some d)
 Proof.
   intros I Hd. unfold finished_dir. destruct execdir eqn:He; [|split; [exact I|split; [reflexivity|discriminate]]].
   destruct (cmd s) as [[b r]|] eqn:Ec; [|split; [exact I|split; [reflexivity|auto]]].
+  destruct b as [|x b'] eqn:Eb; cbn [run_batch].
+  { (* nothing pending: nothing is run *)
+    split; [|split; [|reflexivity]].
+    - constructor; cbn [cmd runs current_dir failed].
+      + exact Logic.I.
+      + apply (inv_runs s I).
+      + intros _. destruct (inv_dir s I He) as [_ Hr]. split; [unfold pending; cbn; constructor|exact Hr].
+      + apply (inv_failed s I).
+    - unfold delivered, pending. cbn [cmd runs]. rewrite Ec. reflexivity. }
+  rewrite <- Eb in *. clear Eb.
   split; [|split; [|reflexivity]].
   - constructor; cbn [run_cmd cmd runs current_dir].
     + exact Logic.I.
@@ -180,7 +195,13 @@ Proof.
     + unfold delivered, pending in Hd1. rewrite Hc1, app_nil_r in Hd1. rewrite Hd1. exact Hd.
     + split; [apply I1|]. split; [intros _; apply (inv_dir _ I1 He)|apply I1].
   - destruct (cmd s1) as [[b r]|] eqn:Ec.
-    + cbn [run_cmd cmd runs failed]. split; [reflexivity|]. split.
+    + destruct b as [|x b'] eqn:Eb; cbn [run_batch].
+      { (* nothing pending: nothing is run *)
+        cbn [cmd runs failed]. split; [reflexivity|]. split.
+        - unfold delivered, pending in Hd1. rewrite Ec, app_nil_r in Hd1. rewrite Hd1. exact Hd.
+        - split; [apply I1|]. split; [discriminate|apply I1]. }
+      rewrite <- Eb in *. clear Eb.
+      cbn [run_cmd cmd runs failed]. split; [reflexivity|]. split.
       * rewrite map_app, concat_app. cbn. rewrite app_nil_r.
         unfold delivered, pending in Hd1. rewrite Ec in Hd1. rewrite Hd1. exact Hd.
       * split.
@@ -190,5 +211,43 @@ Proof.
     + split; [exact Ec|]. split.
       * unfold delivered, pending in Hd1. rewrite Ec, app_nil_r in Hd1. rewrite Hd1. exact Hd.
       * split; [apply I1|]. split; [discriminate|apply I1].
+Qed.
+
+(* no invocation without a path - whatever fits or does not *)
+Definition nonempty_runs (s : st) : Prop := Forall (fun r => snd r <> []) (runs s).
+Lemma run_batch_ne cwd b s : nonempty_runs s -> nonempty_runs (run_batch ok cwd b s).
+Proof.
+  intros H. destruct b as [|x b']; cbn [run_batch]; [exact H|]. unfold nonempty_runs, run_cmd. cbn [runs].
+  apply Forall_app. split; [exact H|]. constructor; [discriminate|constructor].
+Qed.
+Lemma matches_ne e s : nonempty_runs s -> nonempty_runs (matches e s).
+Proof.
+  intros H. unfold ExecMulti.matches. destruct (match cmd s with Some c => c | None => ([], budget) end) as [b rem].
+  destruct (fits e rem); [exact H|]. pose proof (run_batch_ne (if execdir then eparent e else None) b s H) as H1.
+  destruct (fits e budget); exact H1.
+Qed.
+Lemma finished_dir_ne d s : nonempty_runs s -> nonempty_runs (finished_dir execdir ok d s).
+Proof. intros H. unfold finished_dir. destruct execdir; [|exact H]. destruct (cmd s) as [[b r]|]; [now apply run_batch_ne|exact H]. Qed.
+Lemma step_ne s e : nonempty_runs s -> nonempty_runs (step s e).
+Proof.
+  intros H. unfold ExecMulti.step.
+  set (s1 := if opt_eqb (eparent e) (current_dir s) then s else _).
+  assert (H1 : nonempty_runs s1).
+  { unfold s1. destruct (opt_eqb (eparent e) (current_dir s)); [exact H|]. unfold nonempty_runs. cbn [runs].
+    destruct (current_dir s); [now apply finished_dir_ne|exact H]. }
+  destruct (reached e); [now apply matches_ne|exact H1].
+Qed.
+Theorem run_never_empty es : nonempty_runs (run es).
+Proof.
+  unfold ExecMulti.run, ExecMulti.finish.
+  assert (H : nonempty_runs (fold_left step es st0)).
+  { assert (G : forall s, nonempty_runs s -> nonempty_runs (fold_left step es s)).
+    { induction es as [|e es IH]; intros s Hs; [exact Hs|]. cbn [fold_left]. apply IH. now apply step_ne. }
+    apply G. constructor. }
+  set (s := fold_left step es st0) in *. clearbody s.
+  assert (H1 : nonempty_runs (match current_dir s with Some d => finished_dir execdir ok d s | None => s end)).
+  { destruct (current_dir s); [now apply finished_dir_ne|exact H]. }
+  unfold finished. destruct execdir; [exact H1|].
+  destruct (cmd _) as [[b r]|]; [now apply run_batch_ne|exact H1].
 Qed.
 End P.
